@@ -262,6 +262,15 @@ func (c09) Gen(r *simrt.Rand, idx int, tier string) *Case {
 	g.PAssert = 0.5
 	g.InexactAccrual = true
 	g.Ancient = idx%25 == 7
+	if idx%40 == 11 {
+		// a long journal full of multi-byte characters: the printed form is well above
+		// the sizes at which readers and writers switch to chunks (4, 32, 64 KiB)
+		g.MinTxn, g.MaxTxn = 300, 700
+		g.MaxSpan = 700
+		g.PUnicode = 0.6
+		g.UnicodeDesc = true
+		g.PAccrual = 0.02
+	}
 	c := &Case{Sub: "roundtrip", Gen: &g}
 	if idx%2 == 1 {
 		g.Prices = "tree"
